@@ -58,6 +58,13 @@ def gen_run(rng, tier):
                                constraint=0.0, empty=0.1)
     scn['max_parallel_tasks'] = rng.choice([0, 1, 2, 3, 4, 8, 16])
     if rng.random() < 0.2:
+        # names a rotation / backup scheme can leave behind (plain content): '.gz' inside
+        # the name, not at its end, or twice
+        for k, f in enumerate(scn['files']):
+            if rng.random() < 0.5:
+                f['name'] = rng.choice(['f%d.log.gz.1', 'f%d.gz.old', 'f%d.tar.gz.txt',
+                                        'f%d.gz.gz.bak', 'gz.f%d']) % k
+    if rng.random() < 0.2:
         scn['_foreign_lookup'] = rng.choice([1, 2, 5])
     if rng.random() < 0.3:
         # some registrations opt out of the (absent) file-level constraint: whatever mix of
